@@ -149,6 +149,8 @@ pub fn generate(rng: &mut Rng, tier: Tier, emit: &mut dyn FnMut(String)) {
     }
     // second layer: the consumer loop, the public wrappers, ShardAwarePortRange::new, SUPPORTED as open_connection keeps it
     crate::c11_conn::generate(rng, tier, emit);
+    // the random shard fill-in of the load-balancing plan
+    crate::c11_plan::generate(rng, tier, emit);
 }
 
 fn opt(p: Option<u16>) -> String {
@@ -161,6 +163,9 @@ pub fn run(case: &str, ctx: &mut Ctx) -> String {
         return "bad-case".to_owned();
     }
     if let Some(out) = crate::c11_conn::run(&w, ctx) {
+        return out;
+    }
+    if let Some(out) = crate::c11_plan::run(&w, ctx) {
         return out;
     }
     let num = |i: usize| -> i64 { w[i].parse().unwrap() };
